@@ -42,5 +42,13 @@ int main(int argc, char** argv)
 	}
 	if (cmd == "selfassign") { Array<int> a(3); a[0] = 1; a[1] = 2; a[2] = 3; Array<int>& b = a; a = b; if (a.length() != 3 || a[2] != 3) { printf("REPRODUCED self-assignment\n"); return 1; } printf("OK\n"); return 0; }
 	if (cmd == "append_self") { int n = atoi(argv[2]); Array<int> a(n); std::vector<int> v(n); for (int i = 0; i < n; i++) a[i] = v[i] = 100 + i; a.append(a); std::vector<int> w = v; v.insert(v.end(), w.begin(), w.end()); if (same("a.append(a)", a, v)) return 1; printf("OK\n"); return 0; }
+	if (cmd == "shared_growth") {          // two handles to one block; growing through one of them
+		Array<int> a(3); a[0] = 1; a[1] = 2; a[2] = 3;
+		Array<int> b = a;                    // shares the block (rc == 2)
+		a << 4;                              // capacity 3 exhausted: the block is reallocated
+		int n = b.length();                  // b still points at the old block
+		if (n != 3 && n != 4) { printf("REPRODUCED second handle reports length %d\n", n); return 1; }
+		printf("OK\n"); return 0;
+	}
 	return 2;
 }
